@@ -167,6 +167,22 @@ _UNEVEN = [
     for rot in range(24)
 ]
 
+# A row of three boxes: both ends chopped 5, the middle one chopped 15; all insertion orders (when the middle box
+# comes last all four of its edges are already graded by its neighbours)
+_SURROUNDED = [
+    {
+        "dims": [3, 1, 1], "widths": [[1.0, 1.0, 1.0], [1.0], [1.0]], "jitter": [], "cells": list(order),
+        "orient": [0, 0, 0], "mode": "conflict", "conflict": {"family": 0, "first": [0, 2], "second": [1, 2]},
+        "chops": [
+            {"cell": 0, "gdir": 2, "args": {"count": 5}}, {"cell": 2, "gdir": 2, "args": {"count": 5}},
+            {"cell": 1, "gdir": 2, "args": {"count": 15}}, {"cell": 0, "gdir": 1, "args": {"count": 3}},
+            {"cell": 0, "gdir": 0, "args": {"count": 2}}, {"cell": 1, "gdir": 0, "args": {"count": 2}},
+            {"cell": 2, "gdir": 0, "args": {"count": 2}},
+        ],
+    }
+    for order in ([0, 1, 2], [0, 2, 1], [1, 0, 2], [1, 2, 0], [2, 0, 1], [2, 1, 0])
+]
+
 CELLS = [
     Cell("C01/success/wellposed", with_history(lt.chopped_lattice("wellposed")), check_success, 150, 8000,
          "one count chop (1-in-5 multi-section) per edge family, written once / twice / after an explicit grade(); counts "
@@ -177,5 +193,5 @@ CELLS = [
          "graded chops (sizes, ratios, preserve modes) on jittered lattices"),
     Cell("C01/conflict", lt.chopped_lattice("conflict").filter(lambda c: c is not None), check_conflict, 200, 10000,
          "two count chops with different totals in one family: InconsistentGradingsError and no file",
-         fixed_cases=_UNEVEN),
+         fixed_cases=_UNEVEN + _SURROUNDED),
 ]
